@@ -234,9 +234,18 @@ func (p *cparser) expr() *CE {
 		if t.k != "id" {
 			p.fail("expected type or 'in' after bound variables")
 		}
+		tname := t.s
+		if p.isOp(".") { // qualified type name pkg.T
+			p.i++
+			t2 := p.next()
+			if t2.k != "id" {
+				p.fail("expected type name after '.'")
+			}
+			tname += "." + t2.s
+		}
 		p.expectOp(":")
 		body := p.expr()
-		return &CE{Kind: kind, Vars: vars, Typ: star + t.s, Args: []*CE{body}}
+		return &CE{Kind: kind, Vars: vars, Typ: star + tname, Args: []*CE{body}}
 	}
 	return p.ternary()
 }
